@@ -475,6 +475,76 @@ def r6_no_state_outside_the_manager(ctx):
     R.floor("C18.R6", n, 3, "long-running client task bodies")
 
 
+def _err_return_blocks(b):
+    errs = set()
+    for bi, blk in enumerate(b.blocks):
+        if bi not in b.reachable:
+            continue
+        for st in blk["st"]:
+            if st["s"] == "assign" and st["pl"]["l"] == 0 and not st["pl"].get("p") and st["rv"]["k"] == "agg" and st["rv"].get("variant") == "Err":
+                errs.add(bi)
+        t = blk["term"]
+        if t and t["t"] == "call" and t.get("dest") and t["dest"]["l"] == 0 and re.search(r"from_residual$", (op_const(t["f"]) or {}).get("fn", "")):
+            errs.add(bi)
+    return errs
+
+
+def r7_failed_write_ends_the_task(ctx):
+    """bookkeeping done before a message is written (pending entries inserted, a subscription turned into `awaiting the
+    unsubscribe acknowledgement`) is only ever undone by the answer to that message - or by the whole client going down,
+    which drops the manager. So a failed transport write must end the send task: in handle_frontend_messages and
+    stop_subscription the Err of every TransportSenderT::send / stop_subscription leaves the function as an Err on every
+    path (with `?` or by hand). A swallowed write error leaves those entries on record for good."""
+    from .common import awaited_value_local
+    F, R = ctx.F, ctx.R
+    n = 0
+    for pat in (r"^jsonrpsee_core::client::async_client::handle_frontend_messages::\{closure#0\}$", r"^jsonrpsee_core::client::async_client::helpers::stop_subscription::\{closure#0\}$"):
+        b = F.one(pat)
+        R.fn(b)
+        errs = _err_return_blocks(b)
+        exits = {bi for bi, blk in enumerate(b.blocks) if blk["term"] and blk["term"]["t"] == "return"}
+        for c in b.calls_to(r"client::TransportSenderT::send$|async_client::helpers::stop_subscription$"):
+            n += 1
+            vl, rb = awaited_value_local(b, c)
+            if vl is None:
+                R.anchor_lost("C18.R7", "awaited result of %s in %s" % (short(c.name()), b.path))
+                continue
+            holders = follow_value(b, vl)
+            err_arms = []
+            for br in b.calls_to(r"Try.*::branch$"):
+                if any(arg_is_local(b, br.args[0], h) for h in holders):
+                    for sb, arms, other in flow.switch_on(b, br.dest["l"]):
+                        if arms.get("1") is not None:
+                            err_arms.append(arms["1"])
+            for sb, arms, other in flow.switch_on(b, vl):
+                if arms.get("1") is not None:
+                    err_arms.append(arms["1"])
+            ok = bool(err_arms) and all(t in errs or flow.all_paths_pass(b, t, errs, exits) for t in err_arms)
+            R.check(ok, "C18.R7", "%s:write-error-propagates:%s@%d" % (fkey(b), (c.name() or "").split("::")[-1], sorted(x.bb for x in b.calls).index(c.bb)), "a failed write ends the send task with its error", "%s %s %s: the send task goes on although the message was never written, so the pending entries / the `awaiting acknowledgement` markers recorded for it (subscribe id, reserved unsubscribe id) are never resolved and stay in the request manager - a later response with such an id is swallowed" % (short(b.path), "can continue after a failed" if err_arms else "ignores the result of", short(c.name())), where(c))
+    R.floor("C18.R7", n, 5, "transport writes in the send path")
+
+
+def r8_handoff_queue_is_lossless(ctx):
+    """closing a lagging / dropped subscription is handed from the read task to the send task through
+    MaybePendingFutures: every path through push() hands its argument to FuturesUnordered::push - a bounded, dropping
+    hand-off loses the only report some subscription ever gets, which then stays in the manager and is never unsubscribed"""
+    F, R = ctx.F, ctx.R
+    tr = ctx.tracer(follow_callers=False, follow_fields=False, inline_calls=False)
+    b = F.one(r"^jsonrpsee_core::client::async_client::utils::MaybePendingFutures::<Fut>::push$")
+    R.fn(b)
+    ps = [c for c in b.calls_to(r"FuturesUnordered::<.*>::push$") if any(l.kind == "param" and l.detail.get("idx") == 2 for l in tr.origins(b, c.args[1]))]
+    exits = {bi for bi, blk in enumerate(b.blocks) if blk["term"] and blk["term"]["t"] == "return"}
+    ok = bool(ps) and (0 in {c.bb for c in ps} or (flow.all_paths_pass(b, 0, {c.bb for c in ps}, exits) and 0 not in exits))
+    R.check(ok, "C18.R8", "MaybePendingFutures::push:lossless", "every path through push() queues the future", "MaybePendingFutures::push can return without queueing its argument: the request to unsubscribe a lagging or dropped subscription is lost, so the subscription stays in the request manager (entry, reserved unsubscribe id, reverse lookup) and its stream never ends", "%s:%d" % (b.file, b.lo))
+    # and the consumer side yields what was queued: poll_next delegates to the inner FuturesUnordered
+    pn = F.find(r"MaybePendingFutures<Fut> as futures_util::Stream>::poll_next$")
+    if not pn:
+        raise AnchorLost("<MaybePendingFutures as Stream>::poll_next")
+    for x in pn:
+        R.fn(x)
+        R.check(bool(x.calls_to(r"poll_next(_unpin)?$")), "C18.R8", "MaybePendingFutures::poll_next:delegates", "poll_next polls the inner FuturesUnordered", "MaybePendingFutures::poll_next no longer polls the queued futures", "%s:%d" % (x.file, x.lo))
+
+
 def rarr_every_element(ctx):
     """an array message is processed element by element to the end"""
     from .common import array_elements_all_processed
@@ -502,7 +572,7 @@ def rkeys_manager_keys_not_derived(ctx):
     manager_keys_not_derived(ctx, "C18.KEYS")
 
 
-RULES = [r1_effect_summaries, r2_ledger, r3_notification_arms, r4_lost_drop_is_recovered, r5_no_unaccounted_success_path, r6_no_state_outside_the_manager, rarr_every_element, rkeys_manager_keys_not_derived] + BORROWED
+RULES = [r7_failed_write_ends_the_task, r8_handoff_queue_is_lossless, r1_effect_summaries, r2_ledger, r3_notification_arms, r4_lost_drop_is_recovered, r5_no_unaccounted_success_path, r6_no_state_outside_the_manager, rarr_every_element, rkeys_manager_keys_not_derived] + BORROWED
 
 LEVEL_TEXT = (
     "A ledger over the client's four private tables decided from the type-checked program: per-method effect summaries "
